@@ -137,14 +137,6 @@ pub mod tower {
     }
 }
 
-// ---- service/host.rs `set_host_header` is A-class (closure passed to `Entry::or_insert_with`, `format!`) ----
-/// ghost: `post` is `pre` after `set_host_header` (Host inserted from the URI unless present / URI has no host)
-pub uninterp spec fn host_header_set<B>(pre: Request<B>, post: Request<B>) -> bool;
-#[verifier::external_body]
-pub fn set_host_header<B>(request: &mut Request<B>)
-    ensures
-        host_header_set(*old(request), *final(request)),
-        final(request).version_s() == old(request).version_s() && final(request).method_s() == old(request).method_s()
-            && final(request).uri_s() == old(request).uri_s() && final(request).ext_s() == old(request).ext_s()
-            && final(request).rest_s() == old(request).rest_s(),
-{ unimplemented!() }
+// ---- service/host.rs `set_host_header`: no stand-in here any more - unit `http` IMPORTS the contract that unit `hosthdr` proves
+//      on the real body (`//@ import hosthdr :: - :: set_host_header` in units/http.vxu); `host_header_set(pre, post)` is a
+//      DEFINITION there (it used to be an uninterpreted relation declared here) ----
